@@ -785,7 +785,7 @@ def main(argv):
             return 2
         if drift_notes and not found:
             for s_ in drift_notes[:5]:
-                print('INCONCLUSIVE property=%s reason=contract drift (hint skipped): %s' % (pid, s_))
+                print('INCONCLUSIVE property=%s reason=contract drift (the code moved away from what a proof hint was written for): %s' % (pid, s_))
             for v in final_viol:
                 print('INCONCLUSIVE property=%s reason=obligation %s in %s not discharged after drift; replay search found no failing input' % (pid, v['obligation'], v['function']))
             return 2
